@@ -1,5 +1,452 @@
 import PkVerif.Model.FilesStore
+import PkVerif.Lemmas.Pack
 /-! Helper lemmas for the files-store VFS model (C03). -/
 namespace Pk.FilesStore
+open Pk.Pack (decEnc parseDigits_decEnc)
+
+theorem decEnc_inj (a b : Nat) (h : decEnc a = decEnc b) : a = b := by
+  have ha := parseDigits_decEnc a
+  rw [h, parseDigits_decEnc b] at ha
+  injection ha with ha; exact ha.symm
+
+theorem tmpName_inj (dir pfx : Bytes) (a b : Nat) (h : tmpName dir pfx a = tmpName dir pfx b) : a = b := by
+  simp only [tmpName, join, List.append_cancel_left_eq, List.cons.injEq, true_and] at h
+  exact decEnc_inj a b h
+
+/-- what holds of the VFS at every point of a safe effect order, relative to the state `v0` the
+receive started from -/
+structure Base (c : Ctx) (v0 : VFS) (s : RunSt) : Prop where
+  tmp : ∀ t, s.tmp = some t → t ≠ c.final ∧ ∃ n, t = tmpName c.dir c.pfx n
+  final : ∀ f ∈ s.vfs.files, f.path = c.final → f.dur = f.cur ∧ (f.cur = c.data ∨ f ∈ v0.files)
+  frame1 : ∀ f ∈ s.vfs.files, f.path ≠ c.final → (∀ n, f.path ≠ tmpName c.dir c.pfx n) → f ∈ v0.files
+  frame2 : ∀ f ∈ v0.files, f.path ≠ c.final → (∀ n, f.path ≠ tmpName c.dir c.pfx n) → f ∈ s.vfs.files
+  fresh : ∀ f ∈ s.vfs.files, ∀ n, s.vfs.counter ≤ n → f.path ≠ tmpName c.dir c.pfx n
+
+/-- the temp file exists and every file of that name satisfies `P` -/
+def TmpIs (s : RunSt) (P : File → Prop) : Prop :=
+  ∃ t, s.tmp = some t ∧ (∃ f ∈ s.vfs.files, f.path = t) ∧ ∀ f ∈ s.vfs.files, f.path = t → P f
+
+def Rel (c : Ctx) : Nat → RunSt → Prop
+  | 1, s => TmpIs s (fun f => f.dur = [] ∧ f.cur = [])
+  | 2, s => TmpIs s (fun f => f.dur = [] ∧ f.cur = c.data)
+  | 3, s => TmpIs s (fun f => f.dur = c.data ∧ f.cur = c.data)
+  | 4, s => ∃ f ∈ s.vfs.files, f.path = c.final
+  | _, _ => True
+
+theorem lookup_isSome (v : VFS) (p : Bytes) (h : ∃ f ∈ v.files, f.path = p) : (v.lookup p).isNone = false := by
+  obtain ⟨f, hf, hp⟩ := h
+  unfold VFS.lookup
+  cases hfind : v.files.find? (fun f => f.path == p) with
+  | some _ => rfl
+  | none =>
+    have := List.find?_eq_none.mp hfind f hf
+    simp [hp] at this
+
+theorem step_mkdirAll (c : Ctx) (v0 : VFS) (a : Nat) (s : RunSt) (hb : Base c v0 s) (hr : Rel c a s) :
+    Base c v0 (step c s .mkdirAll) ∧ Rel c a (step c s .mkdirAll) := by
+  have e1 : (step c s .mkdirAll).vfs.files = s.vfs.files := rfl
+  have e2 : (step c s .mkdirAll).tmp = s.tmp := rfl
+  have e3 : (step c s .mkdirAll).vfs.counter = s.vfs.counter := rfl
+  refine ⟨⟨by rw [e2]; exact hb.tmp, by rw [e1]; exact hb.final, by rw [e1]; exact hb.frame1,
+    by rw [e1]; exact hb.frame2, by rw [e1, e3]; exact hb.fresh⟩, ?_⟩
+  match a, hr with
+  | 1, hr => exact hr
+  | 2, hr => exact hr
+  | 3, hr => exact hr
+  | 4, hr => exact hr
+  | 0, _ => trivial
+  | _ + 5, _ => trivial
+
+theorem step_tempFile (c : Ctx) (v0 : VFS) (s : RunSt) (hT : ∀ n, tmpName c.dir c.pfx n ≠ c.final)
+    (hb : Base c v0 s) : Base c v0 (step c s .tempFile) ∧ Rel c 1 (step c s .tempFile) := by
+  have ef : (step c s .tempFile).vfs.files = s.vfs.files ++ [⟨tmpName c.dir c.pfx s.vfs.counter, [], []⟩] := rfl
+  have et : (step c s .tempFile).tmp = some (tmpName c.dir c.pfx s.vfs.counter) := rfl
+  have ec : (step c s .tempFile).vfs.counter = s.vfs.counter + 1 := rfl
+  refine ⟨⟨?_, ?_, ?_, ?_, ?_⟩, ?_⟩
+  · intro t ht
+    rw [et] at ht; injection ht with ht; subst ht
+    exact ⟨hT _, _, rfl⟩
+  · intro f hf hp
+    rw [ef] at hf
+    rcases List.mem_append.mp hf with hf | hf
+    · exact hb.final f hf hp
+    · simp at hf; subst hf; exact absurd hp (hT _)
+  · intro f hf hp hn
+    rw [ef] at hf
+    rcases List.mem_append.mp hf with hf | hf
+    · exact hb.frame1 f hf hp hn
+    · simp at hf; subst hf; exact absurd rfl (hn _)
+  · intro f hf hp hn
+    rw [ef]; exact List.mem_append.mpr (Or.inl (hb.frame2 f hf hp hn))
+  · intro f hf n hn
+    rw [ec] at hn
+    rw [ef] at hf
+    rcases List.mem_append.mp hf with hf | hf
+    · exact hb.fresh f hf n (by omega)
+    · simp at hf; subst hf
+      intro e
+      have := tmpName_inj _ _ _ _ e
+      omega
+  · refine ⟨_, et, ⟨⟨tmpName c.dir c.pfx s.vfs.counter, [], []⟩, by rw [ef]; simp, rfl⟩, ?_⟩
+    intro f hf hp
+    rw [ef] at hf
+    rcases List.mem_append.mp hf with hf | hf
+    · exact absurd hp (hb.fresh f hf _ (Nat.le_refl _))
+    · simp at hf; subst hf; exact ⟨rfl, rfl⟩
+
+/-- `mapFile` on the temp file: the facts of `Base` do not care -/
+theorem base_mapFile (c : Ctx) (v0 : VFS) (s : RunSt) (t : Bytes) (g : File → File) (ht : s.tmp = some t)
+    (hg : ∀ f, (g f).path = f.path) (hb : Base c v0 s) :
+    Base c v0 { s with vfs := s.vfs.mapFile t g } := by
+  obtain ⟨htf, n0, hn0⟩ := hb.tmp t ht
+  have key : ∀ f' ∈ (s.vfs.mapFile t g).files, f'.path ≠ t → f' ∈ s.vfs.files := by
+    intro f' hf' hp
+    simp only [VFS.mapFile, List.mem_map] at hf'
+    obtain ⟨f, hf, e⟩ := hf'
+    by_cases hpt : f.path = t
+    · rw [if_pos hpt] at e; subst e; rw [hg] at hp; exact absurd hpt hp
+    · rw [if_neg hpt] at e; subst e; exact hf
+  have paths : ∀ f' ∈ (s.vfs.mapFile t g).files, ∃ f ∈ s.vfs.files, f'.path = f.path := by
+    intro f' hf'
+    simp only [VFS.mapFile, List.mem_map] at hf'
+    obtain ⟨f, hf, e⟩ := hf'
+    refine ⟨f, hf, ?_⟩
+    by_cases hpt : f.path = t
+    · rw [if_pos hpt] at e; subst e; exact hg f
+    · rw [if_neg hpt] at e; subst e; rfl
+  refine ⟨hb.tmp, ?_, ?_, ?_, ?_⟩
+  · intro f' hf' hp
+    exact hb.final f' (key f' hf' (by rw [hp]; exact fun e => htf e.symm)) hp
+  · intro f' hf' hp hn
+    exact hb.frame1 f' (key f' hf' (by rw [hn0] at *; exact hn n0)) hp hn
+  · intro f hf hp hn
+    have hin := hb.frame2 f hf hp hn
+    simp only [VFS.mapFile, List.mem_map]
+    exact ⟨f, hin, by rw [if_neg (by rw [hn0]; exact hn n0)]⟩
+  · intro f' hf' n hn
+    obtain ⟨f, hf, e⟩ := paths f' hf'
+    rw [e]; exact hb.fresh f hf n hn
+
+theorem tmpIs_mapFile (s : RunSt) (t : Bytes) (g : File → File) (P Q : File → Prop) (ht : s.tmp = some t)
+    (hg : ∀ f, (g f).path = f.path) (hPQ : ∀ f, P f → Q (g f)) (h : TmpIs s P) :
+    TmpIs { s with vfs := s.vfs.mapFile t g } Q := by
+  obtain ⟨t', ht', ⟨f0, hf0, hp0⟩, hall⟩ := h
+  rw [ht] at ht'; injection ht' with ht'; subst ht'
+  refine ⟨t, ht, ⟨g f0, ?_, by rw [hg]; exact hp0⟩, ?_⟩
+  · simp only [VFS.mapFile, List.mem_map]
+    exact ⟨f0, hf0, by rw [if_pos hp0]⟩
+  · intro f' hf' hp'
+    simp only [VFS.mapFile, List.mem_map] at hf'
+    obtain ⟨f, hf, e⟩ := hf'
+    by_cases hpt : f.path = t
+    · rw [if_pos hpt] at e; subst e; exact hPQ f (hall f hf hpt)
+    · rw [if_neg hpt] at e; subst e; exact absurd hp' hpt
+
+theorem step_copy (c : Ctx) (v0 : VFS) (s : RunSt) (hb : Base c v0 s) (hr : Rel c 1 s) :
+    Base c v0 (step c s .copy) ∧ Rel c 2 (step c s .copy) := by
+  obtain ⟨t, ht, hex, hall⟩ := hr
+  have e : step c s .copy = { s with vfs := s.vfs.mapFile t (fun x => { x with cur := x.cur ++ c.data }) } := by
+    simp [step, onTmp, ht, VFS.write]
+  rw [e]
+  exact ⟨base_mapFile c v0 s t _ ht (fun _ => rfl) hb,
+    tmpIs_mapFile s t _ _ _ ht (fun _ => rfl) (fun f hf => by simp [hf.1, hf.2]) ⟨t, ht, hex, hall⟩⟩
+
+theorem step_sync (c : Ctx) (v0 : VFS) (a : Nat) (s : RunSt) (hb : Base c v0 s) (hr : Rel c a s) :
+    Base c v0 (step c s .sync) ∧ Rel c (if a = 2 then 3 else a) (step c s .sync) := by
+  cases ht : s.tmp with
+  | none =>
+    have e : step c s .sync = s := by simp [step, onTmp, ht]
+    rw [e]
+    refine ⟨hb, ?_⟩
+    match a, hr with
+    | 1, hr => obtain ⟨t, ht', _⟩ := hr; rw [ht] at ht'; cases ht'
+    | 2, hr => obtain ⟨t, ht', _⟩ := hr; rw [ht] at ht'; cases ht'
+    | 3, hr => obtain ⟨t, ht', _⟩ := hr; rw [ht] at ht'; cases ht'
+    | 4, hr => exact hr
+    | 0, _ => trivial
+    | _ + 5, _ => trivial
+  | some t =>
+    have e : step c s .sync = { s with vfs := s.vfs.mapFile t (fun x => { x with dur := x.cur }) } := by
+      simp [step, onTmp, ht, VFS.sync]
+    rw [e]
+    refine ⟨base_mapFile c v0 s t _ ht (fun _ => rfl) hb, ?_⟩
+    match a, hr with
+    | 1, hr => exact tmpIs_mapFile s t _ _ _ ht (fun _ => rfl) (fun f hf => by simp [hf.2]) hr
+    | 2, hr => exact tmpIs_mapFile s t _ _ _ ht (fun _ => rfl) (fun f hf => by simp [hf.2]) hr
+    | 3, hr => exact tmpIs_mapFile s t _ _ _ ht (fun _ => rfl) (fun f hf => by simp [hf.2]) hr
+    | 4, hr =>
+      obtain ⟨f, hf, hp⟩ := hr
+      refine ⟨(if f.path = t then { f with dur := f.cur } else f), ?_, by split <;> exact hp⟩
+      simp only [VFS.mapFile, List.mem_map]
+      exact ⟨f, hf, rfl⟩
+    | 0, _ => trivial
+    | _ + 5, _ => trivial
+
+theorem step_remove (c : Ctx) (v0 : VFS) (s : RunSt) (hb : Base c v0 s) :
+    Base c v0 (step c s .remove) := by
+  cases ht : s.tmp with
+  | none =>
+    have e : step c s .remove = s := by simp [step, onTmp, ht]
+    rw [e]; exact hb
+  | some t =>
+    have e : step c s .remove = { s with vfs := s.vfs.remove t } := by simp [step, onTmp, ht]
+    rw [e]
+    obtain ⟨_, n0, hn0⟩ := hb.tmp t ht
+    have sub : ∀ f ∈ (s.vfs.remove t).files, f ∈ s.vfs.files := by
+      intro f hf; simp only [VFS.remove, List.mem_filter] at hf; exact hf.1
+    refine ⟨hb.tmp, fun f hf => hb.final f (sub f hf), fun f hf => hb.frame1 f (sub f hf), ?_,
+      fun f hf => hb.fresh f (sub f hf)⟩
+    intro f hf hp hn
+    simp only [VFS.remove, List.mem_filter]
+    exact ⟨hb.frame2 f hf hp hn, by simpa using (by rw [hn0]; exact hn n0 : f.path ≠ t)⟩
+
+theorem step_remove_final (c : Ctx) (v0 : VFS) (s : RunSt) (hb : Base c v0 s)
+    (h : ∃ f ∈ s.vfs.files, f.path = c.final) : ∃ f ∈ (step c s .remove).vfs.files, f.path = c.final := by
+  cases ht : s.tmp with
+  | none =>
+    have e : step c s .remove = s := by simp [step, onTmp, ht]
+    rw [e]; exact h
+  | some t =>
+    have e : step c s .remove = { s with vfs := s.vfs.remove t } := by simp [step, onTmp, ht]
+    rw [e]
+    obtain ⟨f, hf, hp⟩ := h
+    obtain ⟨htf, _⟩ := hb.tmp t ht
+    refine ⟨f, ?_, hp⟩
+    simp only [VFS.remove, List.mem_filter]
+    exact ⟨hf, by simpa [hp] using (fun e => htf e.symm : c.final ≠ t)⟩
+
+theorem step_rename (c : Ctx) (v0 : VFS) (s : RunSt) (hT : ∀ n, tmpName c.dir c.pfx n ≠ c.final)
+    (hb : Base c v0 s) (hr : Rel c 3 s) :
+    Base c v0 (step c s .rename) ∧ (∃ f ∈ (step c s .rename).vfs.files, f.path = c.final) := by
+  obtain ⟨t, ht, hex, hall⟩ := hr
+  obtain ⟨htf, n0, hn0⟩ := hb.tmp t ht
+  have ef : (step c s .rename).vfs.files = (s.vfs.files.filter (fun x => x.path ≠ c.final)).map
+        (fun x => if x.path = t then { x with path := c.final } else x) := by
+    simp [step, onTmp, ht, VFS.rename, lookup_isSome s.vfs t hex]
+  have et : (step c s .rename).tmp = s.tmp := by simp [step, onTmp, ht]
+  have ec : (step c s .rename).vfs.counter = s.vfs.counter := by
+    simp [step, onTmp, ht, VFS.rename, lookup_isSome s.vfs t hex]
+  have mem : ∀ f', f' ∈ (s.vfs.files.filter (fun x => x.path ≠ c.final)).map
+      (fun x => if x.path = t then { x with path := c.final } else x) →
+      (∃ f ∈ s.vfs.files, f.path = t ∧ f' = { f with path := c.final }) ∨
+      (f' ∈ s.vfs.files ∧ f'.path ≠ c.final ∧ f'.path ≠ t) := by
+    intro f' hf'
+    simp only [List.mem_map, List.mem_filter] at hf'
+    obtain ⟨f, ⟨hf, hpf⟩, e'⟩ := hf'
+    by_cases hpt : f.path = t
+    · rw [if_pos hpt] at e'; exact Or.inl ⟨f, hf, hpt, e'.symm⟩
+    · rw [if_neg hpt] at e'; subst e'; exact Or.inr ⟨hf, by simpa using hpf, hpt⟩
+  refine ⟨⟨by rw [et]; exact hb.tmp, ?_, ?_, ?_, ?_⟩, ?_⟩
+  all_goals rw [ef]
+  · intro f' hf' hp
+    rcases mem f' hf' with ⟨f, hf, hpt, e'⟩ | ⟨_, hne, _⟩
+    · subst e'
+      obtain ⟨h1, h2⟩ := hall f hf hpt
+      exact ⟨by simp [h1, h2], Or.inl h2⟩
+    · exact absurd hp hne
+  · intro f' hf' hp hn
+    rcases mem f' hf' with ⟨f, hf, hpt, e'⟩ | ⟨hin, _, _⟩
+    · subst e'; exact absurd rfl hp
+    · exact hb.frame1 f' hin hp hn
+  · intro f hf hp hn
+    have hin := hb.frame2 f hf hp hn
+    simp only [List.mem_map, List.mem_filter]
+    exact ⟨f, ⟨hin, by simpa using hp⟩, by rw [if_neg (by rw [hn0]; exact hn n0)]⟩
+  · intro f' hf' n hn
+    rw [ec] at hn
+    rcases mem f' hf' with ⟨f, hf, hpt, e'⟩ | ⟨hin, _, _⟩
+    · subst e'; exact fun e => hT n e.symm
+    · exact hb.fresh f' hin n hn
+  · obtain ⟨f0, hf0, hp0⟩ := hex
+    refine ⟨{ f0 with path := c.final }, ?_, rfl⟩
+    simp only [List.mem_map, List.mem_filter]
+    exact ⟨f0, ⟨hf0, by simpa [hp0] using htf⟩, by rw [if_pos hp0]⟩
+
+/-- one effect of a safe order keeps `Base` and moves `Rel` along the scan -/
+theorem step_safe (c : Ctx) (v0 : VFS) (hT : ∀ n, tmpName c.dir c.pfx n ≠ c.final)
+    (a a' : Nat) (e : Eff) (s : RunSt) (hs : scanStep a e = some a') (hb : Base c v0 s) (hr : Rel c a s) :
+    Base c v0 (step c s e) ∧ Rel c a' (step c s e) := by
+  cases e
+  case mkdirAll =>
+    simp only [scanStep, Option.some.injEq] at hs; subst hs
+    exact step_mkdirAll c v0 a s hb hr
+  case close =>
+    simp only [scanStep, Option.some.injEq] at hs; subst hs
+    exact ⟨hb, hr⟩
+  case lstat =>
+    simp only [scanStep, Option.some.injEq] at hs; subst hs
+    exact ⟨hb, hr⟩
+  case tempFile =>
+    simp only [scanStep] at hs
+    split at hs
+    · injection hs with hs; subst hs
+      exact step_tempFile c v0 s hT hb
+    · cases hs
+  case copy =>
+    simp only [scanStep] at hs
+    split at hs
+    · rename_i ha; subst ha
+      injection hs with hs; subst hs
+      exact step_copy c v0 s hb hr
+    · cases hs
+  case sync =>
+    simp only [scanStep, Option.some.injEq] at hs; subst hs
+    exact step_sync c v0 a s hb hr
+  case rename =>
+    simp only [scanStep] at hs
+    split at hs
+    · rename_i ha; subst ha
+      injection hs with hs; subst hs
+      exact step_rename c v0 s hT hb hr
+    · cases hs
+  case remove =>
+    simp only [scanStep, Option.some.injEq] at hs
+    have hb' := step_remove c v0 s hb
+    refine ⟨hb', ?_⟩
+    subst hs
+    by_cases ha : a = 4
+    · subst ha
+      exact step_remove_final c v0 s hb hr
+    · simp only [ha, if_false]; trivial
+  all_goals (simp [scanStep] at hs)
+
+theorem run_safe (c : Ctx) (v0 : VFS) (hT : ∀ n, tmpName c.dir c.pfx n ≠ c.final)
+    (effs : List Eff) (a aEnd : Nat) (s : RunSt) (hs : scan a effs = some aEnd)
+    (hb : Base c v0 s) (hr : Rel c a s) (k : Nat) :
+    ∃ ak, Base c v0 (run c s (effs.take k)) ∧ Rel c ak (run c s (effs.take k)) := by
+  induction effs generalizing a s k with
+  | nil => exact ⟨a, by simpa [run] using hb, by simpa [run] using hr⟩
+  | cons e t ih =>
+    cases k with
+    | zero => exact ⟨a, by simpa [run] using hb, by simpa [run] using hr⟩
+    | succ k =>
+      simp only [scan] at hs
+      cases hse : scanStep a e with
+      | none => simp [hse] at hs
+      | some a1 =>
+        simp only [hse] at hs
+        obtain ⟨hb1, hr1⟩ := step_safe c v0 hT a a1 e s hse hb hr
+        simpa [run] using ih a1 (step c s e) hs hb1 hr1 k
+
+/-- a clean file (everything synced) is what it is after a crash -/
+theorem crashFile_clean (j : Nat) (f : File) (h : f.dur = f.cur) : crashFile j f = f := by
+  cases f with
+  | mk p d cu =>
+    simp only at h; subst h
+    simp [crashFile]
+
+theorem crashFile_path (j : Nat) (f : File) : (crashFile j f).path = f.path := rfl
+
+/-! ## names -/
+
+theorem hasSuffix_split (s suf : Bytes) (h : hasSuffix s suf = true) : s = s.take (s.length - suf.length) ++ suf := by
+  simp only [hasSuffix, Bool.and_eq_true, decide_eq_true_eq, beq_iff_eq] at h
+  have := List.take_append_drop (s.length - suf.length) s
+  rw [h.2] at this
+  exact this.symm
+
+theorem hasSuffix_append (a suf : Bytes) : hasSuffix (a ++ suf) suf = true := by
+  simp [hasSuffix]
+
+/-- a name that ends in a decimal digit (what `TempFile` returns) is not a `.dat` name -/
+theorem tmpName_not_dat (dir pfx : Bytes) (n : Nat) : hasSuffix (tmpName dir pfx n) dotDat = false := by
+  cases h : hasSuffix (tmpName dir pfx n) dotDat with
+  | false => rfl
+  | true =>
+    exfalso
+    have hs := hasSuffix_split _ _ h
+    have h1 : (tmpName dir pfx n).getLast? = some 116 := by
+      rw [hs, List.getLast?_append]; simp [dotDat]
+    have hne := Pk.Pack.decEnc_ne_nil n
+    obtain ⟨d, hd⟩ : ∃ d, (decEnc n).getLast? = some d := by
+      cases hg : (decEnc n).getLast? with
+      | none => exact absurd (List.getLast?_eq_none_iff.mp hg) hne
+      | some d => exact ⟨d, rfl⟩
+    have h2 : (tmpName dir pfx n).getLast? = some d := by
+      have : tmpName dir pfx n = (dir ++ 47 :: pfx) ++ decEnc n := by simp [tmpName, join]
+      rw [this, List.getLast?_append, hd]; rfl
+    rw [h1] at h2
+    injection h2 with h2
+    have hdig := Pk.Pack.decEnc_digits n d (List.mem_of_getLast? hd)
+    subst h2
+    simp [Pk.Pack.isDigit] at hdig
+
+theorem tmpName_ne_dat (dir pfx : Bytes) (n : Nat) (p : Bytes) (hp : hasSuffix p dotDat = true) :
+    tmpName dir pfx n ≠ p := by
+  intro e
+  rw [← e, tmpName_not_dat] at hp
+  cases hp
+
+/-! ## enumerate -/
+
+/-- every listed entry is a file whose name is the listed ref followed by `.dat`, with that file's size -/
+def EnumSound (v : VFS) (es : List (Bytes × Nat)) : Prop :=
+  ∀ e ∈ es, ∃ f ∈ v.files, ∃ d, f.path = join d (e.1 ++ dotDat) ∧ e.2 = f.cur.length
+
+theorem lookup_some (v : VFS) (p : Bytes) (f : File) (h : v.lookup p = some f) : f ∈ v.files ∧ f.path = p := by
+  unfold VFS.lookup at h
+  exact ⟨List.mem_of_find?_eq_some h, by simpa using List.find?_some h⟩
+
+theorem enumName_sound (okRef : Bytes → Bool) (v : VFS) (sub : Bytes → List (Bytes × Nat) × Bool)
+    (dirFull name : Bytes) (hsub : ∀ d, EnumSound v (sub d).1) :
+    EnumSound v (enumName okRef v sub dirFull name).1 := by
+  have hnil : EnumSound v [] := by
+    intro e he; cases he
+  unfold enumName
+  by_cases h1 : skipDir name = true
+  · simp only [h1, if_true]; exact hnil
+  · simp only [h1]
+    by_cases h2 : (isShardDir name || v.isDir (join dirFull name)) = true
+    · simp only [h2, if_true, Bool.false_eq_true, if_false]
+      by_cases h3 : v.isDir (join dirFull name) = true
+      · simp only [h3, if_true]; exact hsub _
+      · simp only [h3]; exact hnil
+    · simp only [h2, Bool.false_eq_true, if_false]
+      by_cases h4 : (!hasSuffix name dotDat) = true
+      · simp only [h4, if_true]; exact hnil
+      · simp only [h4]
+        cases hf : v.lookup (join dirFull name) with
+        | none => exact hnil
+        | some f =>
+          simp only []
+          by_cases h5 : List.take (name.length - 4) name ≠ [] ∧ okRef (List.take (name.length - 4) name) = true
+          · rw [if_pos h5]
+            intro e he
+            have he : e = (List.take (name.length - 4) name, f.cur.length) := by simpa using he
+            subst he
+            obtain ⟨hmem, hpath⟩ := lookup_some v _ f hf
+            have hd : hasSuffix name dotDat = true := by simpa using h4
+            have hs := hasSuffix_split name dotDat hd
+            refine ⟨f, hmem, dirFull, ?_, rfl⟩
+            rw [hpath]
+            simp only [dotDat, List.length_cons, List.length_nil] at hs ⊢
+            rw [← hs]
+          · rw [if_neg h5]; exact hnil
+
+theorem enumNames_sound (okRef : Bytes → Bool) (v : VFS) (sub : Bytes → List (Bytes × Nat) × Bool)
+    (dirFull : Bytes) (names : List Bytes) (hsub : ∀ d, EnumSound v (sub d).1) :
+    EnumSound v (enumNames okRef v sub dirFull names).1 := by
+  induction names with
+  | nil => intro e he; cases he
+  | cons n ns ih =>
+    have h1 := enumName_sound okRef v sub dirFull n hsub
+    simp only [enumNames]
+    split
+    · rename_i es heq
+      rw [heq] at h1; exact h1
+    · rename_i es heq
+      rw [heq] at h1
+      intro e he
+      rcases List.mem_append.mp he with he | he
+      · exact h1 e he
+      · exact ih e he
+
+theorem readBlobs_sound (okRef : Bytes → Bool) (v : VFS) (fuel : Nat) (dir : Bytes) :
+    EnumSound v (readBlobs okRef v fuel dir).1 := by
+  induction fuel generalizing dir with
+  | zero => intro e he; cases he
+  | succ f ih =>
+    simp only [readBlobs]
+    exact enumNames_sound okRef v _ dir _ (fun d => ih d)
 
 end Pk.FilesStore
